@@ -95,8 +95,10 @@ from .errors import (
     HookError,
     NotGitRepository,
     ObjectFormatException,
+    RefFormatError,
     UnexpectedCommandError,
 )
+from .file import FileLocked
 from .object_filters import (
     CombineFilter,
     FilterSpec,
@@ -1531,14 +1533,15 @@ class ReceivePackHandler(PackHandler):
                 if sha == zero_sha:
                     try:
                         updated = self.repo.refs.remove_if_equals(ref, oldsha)
-                    except all_exceptions:
+                    except (*all_exceptions, FileLocked):
+                        # FileLocked: another writer holds the lock of this ref
                         return b"failed to delete"
                 else:
                     try:
                         updated = self.repo.refs.set_if_equals(ref, oldsha, sha)
-                    except all_exceptions:
+                    except (*all_exceptions, FileLocked):
                         return b"failed to write"
-            except KeyError:
+            except (KeyError, RefFormatError):
                 return b"bad ref"
             # the ref no longer holds the old value the client named
             return b"ok" if updated else b"failed to update ref"
@@ -1596,7 +1599,7 @@ class ReceivePackHandler(PackHandler):
                                 self.repo.refs.set_if_equals(
                                     done_ref, done_new, done_old
                                 )
-                        except (*all_exceptions, KeyError):
+                        except (*all_exceptions, KeyError, FileLocked):
                             pass
                     for _, _, other_ref in refs:
                         if other_ref == ref:
